@@ -979,3 +979,232 @@ Proof.
     + inversion Ejr; subst j0 r. apply (Ihead j r0 eq_refl Est).
   - exact Ilost.
 Qed.
+
+Lemma lock_wal_write : forall c P D s,
+  lock_inv c P D s -> wcnt s < c ->
+  lock_inv c P (D ++ written_by (walq s) LWalWrite) (wal_write s).
+Proof.
+  intros c P D s [Icap Ififo Icnt Iids Ifiles Imem Imemrows Ijobs Itail Ipub Iunl Idirs Ihead Ilost] Hw.
+  cbn [written_by]. destruct (walq s) as [|e q] eqn:Eq.
+  { rewrite (wal_write_nil s Eq), app_nil_r. constructor; rewrite ?Eq; assumption. }
+  destruct (wal_write_frame s) as (Ec & Eq' & Ed & Em & Ep & Ej & Ea & Ew & Eu).
+  rewrite Eq in Eq'; cbn [tl] in Eq'.
+  destruct (wal_write_cons s e q Eq) as [En Hcase].
+  assert (Hpos : at_pos P (len D) e) by (rewrite Ififo; apply at_pos_mid).
+  assert (Hposlt : len D < (wcur s + 1) * c) by lia.
+  constructor; rewrite ?Ec, ?Eq', ?Ed, ?Em, ?Ep, ?Ej, ?Ea, ?Ew, ?Eu, ?En; try assumption.
+  - rewrite Ififo, <- app_assoc. reflexivity.
+  - rewrite len_app, len_cons, len_nil. lia.
+  - destruct Hcase as [(_ & -> & _)|(_ & -> & _)]; [exact Iids|].
+    intros f Hf. destruct (wal_append_In _ _ _ _ Hf) as [H|[H _]]; [apply Iids, H|lia].
+  - destruct Hcase as [(_ & -> & _)|(_ & -> & _)]; [exact Ifiles|].
+    intros f x Hf Hx. destruct (wal_append_In _ _ _ _ Hf) as [H|[H1 H2]]; [exact (Ifiles f x H Hx)|].
+    destruct (H2 x Hx) as [->|[g [Hg [Hg1 Hg2]]]].
+    + exists (len D); split; [rewrite H1; exact Hposlt|exact Hpos].
+    + destruct (Ifiles g x Hg Hg2) as [i [Hi Hp]]. exists i; split; [rewrite H1, <- Hg1; exact Hi|exact Hp].
+  - destruct Hcase as [(Hu & _ & ->)|(_ & _ & ->)]; [|exact Ilost].
+    intros x Hx. apply in_app_iff in Hx. destruct Hx as [Hx|[<-|[]]]; [apply Ilost, Hx|].
+    apply (Ipub (len D)); [|exact Hpos]. specialize (Iunl Hu).
+    assert (Hle : wcur s + 1 <= pubn (jobs s) (alloc0 s)) by lia.
+    pose proof (mul_le _ _ c Hle). lia.
+Qed.
+
+Lemma lock_wal_rotate : forall c P D s, lock_inv c P D s -> lock_inv c P D (wal_rotate s).
+Proof.
+  intros c P D s HI. unfold wal_rotate. destruct (N.leb_spec (cap s) (wcnt s)) as [Hr|Hr]; [|exact HI].
+  destruct HI as [Icap Ififo Icnt Iids Ifiles Imem Imemrows Ijobs Itail Ipub Iunl Idirs Ihead Ilost].
+  assert (E0 : wal_count_entries (wal_touch (walfiles s) (N.succ (wcur s))) = 0).
+  { unfold wal_count_entries. rewrite (wal_max_id_is _ (N.succ (wcur s))).
+    - apply wal_touch_lines_new. intros f Hf. specialize (Iids f Hf). lia.
+    - intros f Hf. destruct (wal_touch_In _ _ _ Hf) as [H| ->]; [specialize (Iids f H); lia|cbn [fst]; lia].
+    - destruct (wal_touch_has (walfiles s) (N.succ (wcur s))) as [es H]. exists (N.succ (wcur s), es); auto. }
+  constructor; proj; rewrite ?E0; try assumption.
+  - lia.
+  - intros f Hf. destruct (wal_touch_In _ _ _ Hf) as [H| ->]; [specialize (Iids f H); lia|cbn [fst]; lia].
+  - intros f x Hf Hx. destruct (wal_touch_In _ _ _ Hf) as [H| ->]; [exact (Ifiles f x H Hx)|destruct Hx].
+  - discriminate.
+Qed.
+
+Lemma drows_add_l : forall e ds seg rows, In e (drows ds) -> In e (drows (dir_add_rows ds seg rows)).
+Proof. intros; apply dir_add_rows_In; left; assumption. Qed.
+
+Lemma lock_fw : forall c P D s l, 0 < c -> lock_inv c P D s -> lock_inv c P D (fw_step s l).
+Proof.
+  intros c P D s l Hc HI. pose proof HI as HI0.
+  unfold fw_step, set_jobs, wal_cleanup. destruct (jobs s) as [|j rest] eqn:Ej; [exact HI|].
+  destruct HI as [Icap Ififo Icnt Iids Ifiles Imem Imemrows Ijobs Itail Ipub Iunl Idirs Ihead Ilost].
+  rewrite Ej in *. cbn [hseg jobs_from tl] in *.
+  destruct Ijobs as (Hseg & Hne & Hjevs & Hrest).
+  assert (Hemp : is_empty (jevs j) = false) by (destruct (jevs j); [congruence|reflexivity]).
+  specialize (Ihead j rest eq_refl).
+  assert (Hpa : jseg j + 1 <= alloc0 s) by (apply jobs_from_le in Hrest; exact Hrest).
+  destruct l; destruct (jstage j) eqn:Est; rewrite ?Hemp; cbn [orb negb]; try exact HI0.
+  - (* FwBegin *)
+    constructor; proj; cbn [hseg pubn dirbound jobs_from tl indexed jseg jevs jstage] in *;
+      rewrite ?Est in *; cbn [indexed] in *; try first [assumption | repeat split; assumption | discriminate
+        | intros j0 r Ejr; inversion Ejr; subst j0 r; proj; rewrite ?Est; discriminate].
+    + intros d Hd; specialize (Idirs d Hd); lia.
+    + intros j0 r Ejr; inversion Ejr; subst j0 r; proj. intros _ e He Hu.
+      rewrite has_uid_none in Hu; [discriminate|]. intros d Hd; specialize (Idirs d Hd); lia.
+  - (* FwMkdir *)
+    constructor; proj; cbn [hseg pubn dirbound jobs_from tl indexed jseg jevs jstage] in *;
+      rewrite ?Est in *; cbn [indexed] in *; try first [assumption | repeat split; assumption | discriminate
+        | intros j0 r Ejr; inversion Ejr; subst j0 r; proj; rewrite ?Est; discriminate].
+    + intros i e Hi Hp. apply drows_add_l, (Ipub i e Hi Hp).
+    + intros d Hd. destruct (dir_add_rows_sid _ _ _ _ Hd) as [H|H]; [lia|exact (Idirs d H)].
+    + intros j0 r Ejr; inversion Ejr; subst j0 r. intros _ e He Hu. rewrite has_uid_add in Hu.
+      cbn [existsb] in Hu. rewrite andb_false_r, orb_false_r in Hu. apply drows_add_l, (Ihead eq_refl e He Hu).
+    + intros e He. apply drows_add_l, Ilost, He.
+  - (* FwWrite u *)
+    destruct (negb (memb u (uids_of (jevs j))) || dir_has_uid s (jseg j) u); [exact HI0|].
+    constructor; proj; cbn [hseg pubn dirbound jobs_from tl indexed jseg jevs jstage] in *;
+      rewrite ?Est in *; cbn [indexed] in *; try first [assumption | repeat split; assumption | discriminate
+        | intros j0 r Ejr; inversion Ejr; subst j0 r; proj; rewrite ?Est; discriminate].
+    + intros i e Hi Hp. apply drows_add_l, (Ipub i e Hi Hp).
+    + intros d Hd. destruct (dir_add_rows_sid _ _ _ _ Hd) as [H|H]; [lia|exact (Idirs d H)].
+    + intros j0 r Ejr; inversion Ejr; subst j0 r. intros _ e He Hu. rewrite has_uid_add in Hu.
+      apply orb_true_iff in Hu. destruct Hu as [Hu|Hu]; [apply drows_add_l, (Ihead eq_refl e He Hu)|].
+      apply andb_true_iff in Hu. destruct Hu as [_ Hu]. apply existsb_exists in Hu.
+      destruct Hu as [x [Hx Hxu]]. apply filter_In in Hx. destruct Hx as [_ Hx].
+      apply N.eqb_eq in Hx, Hxu. apply dir_add_rows_In; right. apply filter_In; split.
+      * apply flush_order_In, He.
+      * apply N.eqb_eq. congruence.
+    + intros e He. apply drows_add_l, Ilost, He.
+  - (* FwIndex *)
+    destruct (forallb (dir_has_uid s (jseg j)) (uids_of (jevs j))) eqn:Hall; cbn [negb]; [|exact HI0].
+    constructor; proj; cbn [hseg pubn dirbound jobs_from tl indexed jseg jevs jstage] in *;
+      rewrite ?Est in *; cbn [indexed] in *; try first [assumption | repeat split; assumption | discriminate
+        | intros j0 r Ejr; inversion Ejr; subst j0 r; proj; rewrite ?Est; discriminate].
+    + intros i e Hi Hp. destruct (N.ltb_spec i (jseg j * c)) as [L|L]; [exact (Ipub i e L Hp)|].
+      assert (He : In e (jevs j)) by (apply (Hjevs i e); [lia|exact Hp]).
+      apply (Ihead eq_refl e He). rewrite <- dir_has_uid_eq.
+      rewrite forallb_forall in Hall. apply Hall. apply memb_In, uids_of_In, He.
+    + intros Hu; specialize (Iunl Hu); lia.
+  - (* FwPublish *)
+    constructor; proj; cbn [hseg pubn dirbound jobs_from tl indexed jseg jevs jstage] in *;
+      rewrite ?Est in *; cbn [indexed] in *; try first [assumption | repeat split; assumption | discriminate
+        | intros j0 r Ejr; inversion Ejr; subst j0 r; proj; rewrite ?Est; discriminate].
+  - (* FwClear *)
+    constructor; proj; cbn [hseg pubn dirbound jobs_from tl indexed jseg jevs jstage] in *;
+      rewrite ?Est in *; cbn [indexed] in *; try first [assumption | repeat split; assumption | discriminate
+        | intros j0 r Ejr; inversion Ejr; subst j0 r; proj; rewrite ?Est; discriminate].
+  - (* FwWalDel *)
+    destruct (N.ltb_spec id (N.succ (jseg j))) as [Hid|Hid]; cbn [negb]; [|exact HI0].
+    constructor; proj; cbn [hseg pubn dirbound jobs_from tl indexed jseg jevs jstage] in *;
+      rewrite ?Est in *; cbn [indexed] in *; try first [assumption | repeat split; assumption | discriminate
+        | intros j0 r Ejr; inversion Ejr; subst j0 r; proj; rewrite ?Est; discriminate].
+    + intros f Hf. apply filter_In in Hf. apply Iids, Hf.
+    + intros f e Hf. apply filter_In in Hf. apply Ifiles, Hf.
+    + intros Hu. apply orb_true_iff in Hu. destruct Hu as [Hu|Hu]; [exact (Iunl Hu)|].
+      apply N.eqb_eq in Hu. lia.
+    + intros e He. apply in_app_iff in He. destruct He as [He|He]; [apply Ilost, He|].
+      apply pruned_unsaved_In in He. destruct He as [He _]. apply frows_In in He.
+      destruct He as [f [Hf He]]. apply filter_In in Hf. destruct Hf as [Hf Hfid]. apply N.eqb_eq in Hfid.
+      destruct (Ifiles f e Hf He) as [i [Hi Hp]]. apply (Ipub i e); [|exact Hp].
+      assert (Hle : fst f + 1 <= jseg j + 1) by lia. pose proof (mul_le _ _ c Hle). lia.
+  - (* FwWalClean *)
+    constructor; proj; cbn [hseg pubn dirbound jobs_from tl indexed jseg jevs jstage] in *;
+      rewrite ?Est in *; cbn [indexed] in *; try first [assumption | repeat split; assumption | discriminate
+        | intros j0 r Ejr; inversion Ejr; subst j0 r; proj; rewrite ?Est; discriminate].
+    + intros f Hf. apply filter_In in Hf. apply Iids, Hf.
+    + intros f e Hf. apply filter_In in Hf. apply Ifiles, Hf.
+    + intros Hu. apply orb_true_iff in Hu. destruct Hu as [Hu|Hu]; [exact (Iunl Hu)|].
+      apply andb_true_iff in Hu. destruct Hu as [Hu _]. apply N.ltb_lt in Hu. lia.
+    + intros e He. apply in_app_iff in He. destruct He as [He|He]; [apply Ilost, He|].
+      apply pruned_unsaved_In in He. destruct He as [He _]. apply frows_In in He.
+      destruct He as [f [Hf He]]. apply filter_In in Hf. destruct Hf as [Hf Hfid]. apply N.ltb_lt in Hfid.
+      destruct (Ifiles f e Hf He) as [i [Hi Hp]]. apply (Ipub i e); [|exact Hp].
+      assert (Hle : fst f + 1 <= jseg j + 1) by lia. pose proof (mul_le _ _ c Hle). lia.
+  - (* FwDone *)
+    assert (Hh : hseg rest (alloc0 s) = jseg j + 1 /\ pubn rest (alloc0 s) = jseg j + 1 /\
+                 dirbound rest (alloc0 s) = jseg j + 1 /\
+                 (forall j0 r, rest = j0 :: r -> jstage j0 = StQueued)).
+    { destruct rest as [|j1 r1]; cbn [hseg pubn dirbound jobs_from] in *.
+      - repeat split; try lia. discriminate.
+      - destruct Hrest as (Hs1 & _). inversion Itail as [|x y Hq Hqs]; subst.
+        rewrite Hq; cbn [indexed]. repeat split; try lia. intros j0 r E; inversion E; subst; exact Hq. }
+    destruct Hh as (Hh1 & Hh2 & Hh3 & Hh4).
+    constructor; proj; rewrite ?Hh1, ?Hh2, ?Hh3; cbn [pubn dirbound indexed] in *; rewrite ?Est in *; cbn [indexed] in *;
+      try first [assumption | discriminate].
+    + destruct rest; [constructor|inversion Itail; assumption].
+    + intros j0 r Ejr Hst. rewrite (Hh4 j0 r Ejr) in Hst. discriminate.
+Qed.
+
+(** ** the fragment and the program order of the WAL thread *)
+
+(** one lifetime, no manual FLUSH *)
+Definition lockstep_label (l : label) : bool :=
+  match l with LFlushCmd | LCrash | LRestart => false | _ => true end.
+Definition lockstep (ls : list label) : bool := forallb lockstep_label ls.
+
+(** The WAL thread checks for a rotation right after each write
+    ([entries_written >= cap] in inner_wal_writer.rs), so in a trace of one lifetime
+    it never writes while a rotation is due.  Label lists that break this program
+    order are not traces of the engine; see [lockstep_needs_wal_order_refuted]. *)
+Fixpoint wal_ordered (s : shard) (ls : list label) : bool :=
+  match ls with
+  | [] => true
+  | l :: r => (match l with LWalWrite => wcnt s <? cap s | _ => true end) && wal_ordered (step s l) r
+  end.
+
+Lemma wal_ordered_snoc : forall ls s l,
+  wal_ordered s (ls ++ [l]) =
+  wal_ordered s ls && (match l with LWalWrite => wcnt (run s ls) <? cap (run s ls) | _ => true end).
+Proof.
+  induction ls as [|x r IH]; intros s l; cbn [app wal_ordered].
+  - rewrite andb_true_r. reflexivity.
+  - rewrite IH, andb_assoc. reflexivity.
+Qed.
+
+Lemma lock_step : forall c P D s l, 0 < c ->
+  lock_inv c P D s -> lockstep_label l = true -> (l = LWalWrite -> wcnt s < c) ->
+  lock_inv c (P ++ stored_by l) (D ++ written_by (walq s) l) (step s l).
+Proof.
+  intros c P D s l Hc HI Hl Hw. destruct l as [e0| | | |f| |]; try discriminate Hl; cbn [step stored_by].
+  - cbn [written_by]. rewrite app_nil_r. apply lock_store; assumption.
+  - rewrite app_nil_r. apply lock_wal_write; [exact HI|apply Hw; reflexivity].
+  - cbn [written_by]. rewrite !app_nil_r. apply lock_wal_rotate, HI.
+  - cbn [written_by]. rewrite !app_nil_r. apply lock_fw; assumption.
+Qed.
+
+Lemma lock_run : forall c ls, 0 < c ->
+  lockstep ls = true -> wal_ordered (init c) ls = true ->
+  lock_inv c (stored ls) (durable ls) (run (init c) ls).
+Proof.
+  intros c ls Hc; induction ls as [|l ls IH] using rev_ind; intros Hl Ho.
+  - apply lock_init, Hc.
+  - unfold lockstep in Hl. rewrite forallb_app in Hl. apply andb_true_iff in Hl. destruct Hl as [Hl1 Hl2].
+    cbn [forallb] in Hl2. rewrite andb_true_r in Hl2.
+    rewrite wal_ordered_snoc in Ho. apply andb_true_iff in Ho. destruct Ho as [Ho1 Ho2].
+    specialize (IH Hl1 Ho1).
+    rewrite run_snoc, stored_snoc, durable_snoc, <- (walq_pending c).
+    apply lock_step; [exact Hc|exact IH|exact Hl2|].
+    intros ->. apply N.ltb_lt in Ho2. rewrite (li_cap _ _ _ _ IH) in Ho2. exact Ho2.
+Qed.
+
+(** ** C01 in the lockstep fragment *)
+
+(** whatever went to the ghost list is in a published directory *)
+Theorem lockstep_wlost_in_dirs : forall c ls, 0 < c ->
+  lockstep ls = true -> wal_ordered (init c) ls = true ->
+  forall e, In e (wlost (run (init c) ls)) -> In e (drows (dirs (run (init c) ls))).
+Proof. intros c ls Hc Hl Ho. exact (li_lost _ _ _ _ (lock_run c ls Hc Hl Ho)). Qed.
+
+Theorem lockstep_no_loss : forall c ls, 0 < c ->
+  lockstep ls = true -> wal_ordered (init c) ls = true ->
+  forall e, In e (durable ls) -> recoverable (run (init c) ls) e.
+Proof.
+  intros c ls Hc Hl Ho e He. destruct (safe_run c ls e He) as [H|H]; [|exact H].
+  right. eapply lockstep_wlost_in_dirs; eassumption.
+Qed.
+
+Theorem exactly_once_after_first_crash : forall c ls e, 0 < c ->
+  lockstep ls = true -> wal_ordered (init c) ls = true ->
+  NoDup (map ek (stored ls)) -> In e (durable ls) ->
+  occ e (select (restart (crash (run (init c) ls))) (euid e)) = 1%nat /\
+  occ e (select (restart (run (init c) ls)) (euid e)) = 1%nat.
+Proof.
+  intros c ls e Hc Hl Ho Hn He. rewrite select_restart_crash.
+  assert (R : recoverable (run (init c) ls) e) by (eapply lockstep_no_loss; eassumption).
+  split; apply recoverable_read_once; assumption.
+Qed.
